@@ -396,10 +396,11 @@ class CachedPWA(PythonPWA):
         if (
             self._applied_points is None
             or not points.shape == self._applied_points.shape
-            or not np.allclose(points, self._applied_points)
+            or not np.array_equal(points, self._applied_points)
         ):
             # This must happen first in case index_alpha_beta throws a
             # TriangleContainmentError
             self._iab = PythonPWA.index_alpha_beta(self, points)
-            self._applied_points = points
+            # keep our own copy: the caller may edit its array in place later
+            self._applied_points = np.array(points, copy=True)
         return self._iab
